@@ -811,3 +811,17 @@ func verifC15CallMods(kind int, p *DHCPv4, mods []Modifier) (*DHCPv4, error) {
 		return NewReleaseFromACK(p, mods...)
 	}
 }
+
+// VerifC15Decoded: the packet answered is one DECODED FROM THE WIRE (encode, then FromBytes), so
+// that options 82/61/54/55 in state 0 are whatever the decoder makes of a zero-length option on
+// the wire — the builders must still omit them ("echoed iff present with a non-empty value").
+func VerifC15Decoded(kind, s82, s61, s54, s55 int) {
+	in := verifC15Input(s82, s61, s54, s55, -1)
+	q, err := FromBytes(in.p.ToBytes())
+	verifAssert(err == nil && q != nil, "decode-ok")
+	if err != nil || q == nil {
+		return
+	}
+	in.p = q
+	verifC15Run(kind, in, nil, nil, -1, -1)
+}
